@@ -66,13 +66,15 @@ def run(tier, seed, replay):
     ]
     out = vlib.outdir(PID)
 
-    # 1. design check
-    cfg = "KeepAlive_mc_quick.cfg" if (tier == "quick" or replay) else "KeepAlive_mc_thorough.cfg"
-    res = vlib.run_tlc("KeepAliveMC", cfg, workers=TLC_WORKERS, timeout=900, heap_gb=4)
-    vlib.tlc_must_pass(res, cfg)
-    v.add_tlc(cfg, res)
-    if not res.ok:
-        raise vlib.MachineryError("the KeepAlive model violates %s: design check failed" % res.violation)
+    # 1. design check (thorough: more thresholds and answer delays; quick: done by the generation run below,
+    #    which checks the same invariants and properties on the configuration it exports)
+    if tier == "thorough" and not replay:
+        cfg = "KeepAlive_mc_thorough.cfg"
+        res = vlib.run_tlc("KeepAliveMC", cfg, workers=TLC_WORKERS, timeout=900, heap_gb=4)
+        vlib.tlc_must_pass(res, cfg)
+        v.add_tlc(cfg, res)
+        if not res.ok:
+            raise vlib.MachineryError("the KeepAlive model violates %s: design check failed" % res.violation)
 
     # 1b. vacuity witnesses: each must be violated
     if not replay:
@@ -93,9 +95,9 @@ def run(tier, seed, replay):
     # 2. cases
     gres = vlib.run_tlc("KeepAliveMC", "KeepAlive_gen.cfg", workers=TLC_WORKERS, timeout=900, heap_gb=4)
     vlib.tlc_must_pass(gres, "KeepAlive_gen.cfg")
-    v.add_tlc("KeepAlive_gen.cfg (case export)", gres)
+    v.add_tlc("KeepAlive_gen.cfg (design check + case export)", gres)
     if not gres.ok:
-        raise vlib.MachineryError("case generation failed: %s" % gres.violation)
+        raise vlib.MachineryError("the KeepAlive model violates %s: design check failed" % gres.violation)
     cases = [p for p in gres.printed if isinstance(p, dict) and "pattern" in p and "closeAt" in p]
     cases.sort(key=lambda c: (len(c["pattern"]), c["pattern"], c["T"], c["end"], c["drain"]))
     for i, c in enumerate(cases):
